@@ -241,7 +241,42 @@ def t_mergetuple(fn):
     return ch
 
 
-TRANSFORMS = {"control": lambda fn: True, "nametest": t_nametest, "swapassign": t_swapassign, "demorgan": t_demorgan, "splittuple": t_splittuple, "mergetuple": t_mergetuple, "rename": t_rename, "swapcmp": t_swapcmp, "invertif": t_invertif, "splitand": t_splitand, "mergeif": t_mergeif,
+def t_chainalias(fn):
+    """self.a = E; <reads of self.a in the following statements of the same block, up to the first statement that calls anything or stores self.a>
+       ->  self.a = a_rn = E; <the same reads through a_rn>"""
+    ch = 0
+    for b in _blocks(fn):
+        for i, s in enumerate(list(b)):
+            if not (isinstance(s, ast.Assign) and len(s.targets) == 1 and isinstance(s.targets[0], ast.Attribute) and isinstance(s.targets[0].value, ast.Name)
+                    and s.targets[0].value.id == "self"):
+                continue
+            attr = s.targets[0].attr
+            nm = f"{attr.lstrip('_')}_rn{ch}"
+            replaced = 0
+            for later in b[b.index(s) + 1:]:
+                if isinstance(later, (ast.FunctionDef, ast.AsyncFunctionDef, ast.ClassDef)):
+                    break
+                stores = any(isinstance(x, ast.Attribute) and x.attr == attr and isinstance(x.ctx, (ast.Store, ast.Del)) for x in ast.walk(later))
+                calls = has_call(later) or any(isinstance(x, (ast.For, ast.While, ast.Try, ast.With)) for x in ast.walk(later))
+                if stores or calls:
+                    break
+                for x in ast.walk(later):
+                    for f_, v_ in ast.iter_fields(x):
+                        if isinstance(v_, ast.Attribute) and v_.attr == attr and isinstance(v_.value, ast.Name) and v_.value.id == "self" and isinstance(v_.ctx, ast.Load):
+                            setattr(x, f_, ast.Name(id=nm, ctx=ast.Load()))
+                            replaced += 1
+                        elif isinstance(v_, list):
+                            for j, y in enumerate(v_):
+                                if isinstance(y, ast.Attribute) and y.attr == attr and isinstance(y.value, ast.Name) and y.value.id == "self" and isinstance(y.ctx, ast.Load):
+                                    v_[j] = ast.Name(id=nm, ctx=ast.Load())
+                                    replaced += 1
+            if replaced:
+                s.targets = [s.targets[0], ast.Name(id=nm, ctx=ast.Store())]
+                ch += 1
+    return ch > 0
+
+
+TRANSFORMS = {"control": lambda fn: True, "chainalias": t_chainalias, "nametest": t_nametest, "swapassign": t_swapassign, "demorgan": t_demorgan, "splittuple": t_splittuple, "mergetuple": t_mergetuple, "rename": t_rename, "swapcmp": t_swapcmp, "invertif": t_invertif, "splitand": t_splitand, "mergeif": t_mergeif,
               "tempret": t_tempret, "ifexp": t_ifexp, "augexp": t_augexp}
 
 
